@@ -9,7 +9,7 @@ VARIANTS = {
     # name: (cmake build type, shared?, extra C flags)
     'rel': ('Release', False, '-D%s' % GUARD),
     'relshared': ('Release', True, '-D%s' % GUARD),
-    'asan': ('Debug', False, '-D%s -O1 -g -fsanitize=address,undefined -fno-sanitize=alignment,shift-base -fno-omit-frame-pointer' % GUARD),
+    'asan': ('Debug', False, '-D%s -DNDEBUG -O1 -g -fsanitize=address,undefined -fno-sanitize=alignment,shift-base -fno-omit-frame-pointer' % GUARD),
 }
 
 INCLUDES = ['Source/API', 'Source/Lib/Common/Codec', 'Source/Lib/Common/C_DEFAULT', 'Source/Lib/Common/ASM_SSE2',
